@@ -4,6 +4,9 @@ use serde_json::Value;
 pub mod bddsweep;
 pub mod c01;
 pub mod c02;
+pub mod c03;
+pub mod c04;
+pub mod sddsweep;
 pub mod c06;
 pub mod c08;
 pub mod bddutil;
@@ -23,6 +26,8 @@ pub fn registry() -> Vec<Prop> {
     vec![
         Prop { id: "C01", run: c01::run, replay: c01::replay },
         Prop { id: "C02", run: c02::run, replay: c02::replay },
+        Prop { id: "C03", run: c03::run, replay: c03::replay },
+        Prop { id: "C04", run: c04::run, replay: c04::replay },
         Prop { id: "C06", run: c06::run, replay: c06::replay },
         Prop { id: "C08", run: c08::run, replay: c08::replay },
         Prop { id: "C09", run: c09::run, replay: c09::replay },
